@@ -29,7 +29,7 @@ import (
 )
 
 var nhImportCases = []string{"subset", "single", "all", "mixed", "allnew", "absent", "wrongaddr",
-	"readd_removed", "addr_changed", "kind_changed", "missing_file", "bad_checksum", "missing_meta", "truncated_file"}
+	"readd_removed", "addr_changed", "kind_changed", "missing_file", "bad_checksum", "missing_meta", "truncated_file", "bad_meta"}
 
 func nhCopyDir(src vfs.IFS, sdir string, dst vfs.IFS, ddir string) error {
 	if err := fileutil.MkdirAll(ddir, dst); err != nil {
@@ -392,6 +392,23 @@ func nhScenarioImport(rec *nhRec, tid int, seed int64, smType string, store stri
 		case "missing_meta":
 			corrupt = cs
 			h.fs.Remove(h.fs.PathJoin("/import", server.MetadataFilename))
+		case "bad_meta":
+			// one flipped bit anywhere in the metadata file (hash | marshalled snapshot record): many
+			// flips leave a record that still decodes (another term, index, membership address ...)
+			corrupt = cs
+			mp := h.fs.PathJoin("/import", server.MetadataFilename)
+			f, _ := h.fs.Open(mp)
+			data, _ := io.ReadAll(f)
+			f.Close()
+			if len(data) > 0 {
+				data[rng.Intn(len(data))] ^= 1 << uint(rng.Intn(8))
+				o, _ := h.fs.Create(mp)
+				o.Write(data)
+				o.Sync()
+				o.Close()
+			} else {
+				corrupt = "none"
+			}
 		case "bad_checksum", "truncated_file":
 			corrupt = cs
 			f, _ := h.fs.Open(ssfile)
